@@ -168,6 +168,23 @@ Fixpoint v2_decode_all (fuel : nat) (local remote : N) (st : cstate) (s : bytes)
 Definition v2_run (local remote : N) (s : bytes) : list message * derr :=
   v2_decode_all (S (length s)) local remote st0 s.
 
+(* ---------- connections ---------- *)
+(* A peer stream is a sequence of connections (the remote re-dials after every failure). For each
+   connection streamWriter.run builds a NEW encoder (`case conn := <-cw.connc: ... enc =
+   newMsgAppV2Encoder(conn.Writer, cw.ps)`) and streamReader.decodeLoop a NEW decoder: both ends start
+   every connection from the zero context st0. [conns] = the messages written to each connection. *)
+Definition conns_encode (conns : list (list message)) : list bytes := map (v2_encode_all st0) conns.
+Definition conns_run (local remote : N) (streams : list bytes) : list (list message * derr) :=
+  map (v2_run local remote) streams.
+
+(* NOT the code: a writer that keeps its encoder (and so the context) when a new connection is attached.
+   Used only by the `_refuted` lemma that shows why attach must reset the encoder. *)
+Fixpoint conns_encode_carrying (st : cstate) (conns : list (list message)) : list bytes :=
+  match conns with
+  | [] => []
+  | ms :: r => v2_encode_all st ms :: conns_encode_carrying (v2_enc_state st ms) r
+  end.
+
 (* ---------- the plain message codec ---------- *)
 Definition plain_encode (m : message) : bytes := be64 (msg_size m) ++ msg_marshal m.
 Definition plain_encode_all (ms : list message) : bytes := concat (map plain_encode ms).
